@@ -47,7 +47,8 @@ Init == \E ep \in Endpoints, cr \in Creds, cf \in Cfgs, S \in HdrSets, mode \in 
             /\ (host = "off" => mode = "off" /\ cf = "plain")
             \* conn = "tls": the request reaches the proxy over TLS (what force-https exempts from its redirect)
             /\ (conn = "tls" => mode = "off" /\ host = "on" /\ cf \in {"forcehttps", "plain"})
-            /\ (mode = "off" => iph = "X-Real-IP")
+            \* (with reverse-proxy off a configured real-client-IP header is just as inert as the default one)
+            /\ (mode = "off" /\ iph # "X-Real-IP" => cf = "plain" /\ host = "on" /\ conn = "plain" /\ ep \in {"protected", "authonly"} /\ S \subseteq IPHeaders)
             /\ (mode = "on_other_ip" => S \subseteq (IPHeaders \ {iph}) /\ cf = "plain" /\ ep \in {"protected", "authonly"})
             /\ c = [endpoint |-> ep, cred |-> cr, cfg |-> cf, mode |-> mode, ipHeader |-> iph, host |-> host, conn |-> conn,
                     hdr |-> [h \in S |-> IF hv[h] = "a" THEN CHOOSE v \in Values(h) : \A w \in Values(h) : v = w \/ v \in {"whitelisted", "https", "skipauth", "trusted"}
